@@ -109,3 +109,20 @@ def known():
 
 if __name__ == '__main__':
     known()
+
+
+def known2():
+    pin('C02', 'xer-carriage-return', mod([('A', Ty('UTF8String'))]), 'A', 'a\rb', codec='xer')
+
+
+if __name__ == '__main__':
+    known2()
+
+
+def fixed2():
+    pin('C02', 'xer-real', mod([('A', Ty('SEQUENCE OF', elem=Ty('REAL')))]), 'A',
+        [1e-05, 1e300, 5e-324, float('-inf')], codec='xer')
+
+
+if __name__ == '__main__':
+    fixed2()
